@@ -283,7 +283,7 @@ def c04g(ctx, tu):
                detail="" if ok else "the forbidden-call report must be preceded by marking the expectation as reported")
 
 
-def c04h(ctx, tu):
+def c04h(ctx, tu, rule="C04.h"):
     """movable mocks: the move constructor of the expectations holder carries BOTH lists over (so that
     `linked` - and with it every end-of-life and saturated-match report - follows the mock)"""
     for c in tu.classes.values():
@@ -307,7 +307,7 @@ def c04h(ctx, tu):
             why = "the move constructor of a movable mock's expectation holder moves only %s" % sorted(moved)
         elif not ok:
             why = "the move constructor of a movable mock's expectation holder is %s" % st
-        ctx.ob("C04.h", "trompeloeil::expectations<true> move constructor", ok, pattern=short_loc(c.get("loc", "")),
+        ctx.ob(rule, "trompeloeil::expectations<true> move constructor", ok, pattern=short_loc(c.get("loc", "")),
                unit=tu.name, detail="" if ok else why + ": saturated (or active) expectations stay behind in the "
                "moved-from mock and are silently dropped when it dies")
 
